@@ -59,10 +59,19 @@ contract(
         + " and ".join(f"({e})" for e in LIVE_INV) + ")",
         "self.max_iteration >= 0", "self.block_iteration >= 0",
     ],
-    modifies=LOOP_MOD + ["self.initialised", "self.finalised"],
+    modifies=LOOP_MOD + ["self.initialised", "self.finalised",
+                         "self.resumed"],
     returns="Tuple(Real,Any)",
-    loops={0: {"inv": LIVE_INV + ["not self.finalised",
-                                  "self.block_iteration >= 0"],
+    loops={0: {
+        # the stopping rule, statement by statement: an iteration starts
+        # only while the remaining-evidence estimate exceeds the tolerance,
+        # the loop is left by its guard only when it no longer does, and an
+        # iteration that reaches the cap does not continue
+        "body_pre": ["self.condition > self.tolerance"],
+        "exit_post": ["self.condition <= self.tolerance"],
+        "continue_pre": ["self.iteration < self.max_iteration"],
+        "inv": LIVE_INV + ["not self.finalised",
+                           "self.block_iteration >= 0"],
                "modifies": LOOP_MOD}},
     ensures=[
         # idempotence: a finished run returns at once (nothing modified:
@@ -84,4 +93,89 @@ contract(
         "not (self.condition <= self.tolerance), not self.finalised)",
         "implies(not old(self.finalised), result[0] == self.state.logZ)",
     ],
+)
+
+# ===================================================== importance sampler
+from .shapes import INS
+
+contract(
+    INS, "ImportanceNestedSampler.reached_tolerance", props=["C15"],
+    requires=["len(self.criterion) == len(self.tolerance)"],
+    returns="Bool",
+    ensures=[
+        # any / all of the configured criteria meet their tolerances
+        "implies(self._stop_any, result == exists(k, 0, len(self.criterion), "
+        "self.criterion[k] <= self.tolerance[k]))",
+        "implies(not self._stop_any, result == forall(k, 0, "
+        "len(self.criterion), self.criterion[k] <= self.tolerance[k]))",
+    ],
+)
+
+contract(
+    INS, "ImportanceNestedSampler.configure_iterations", props=["C15"],
+    params={"min_iteration": "Opt(Int)", "max_iteration": "Opt(Int)"},
+    modifies=["self.min_iteration", "self.max_iteration"],
+    ensures=[
+        "implies(min_iteration is None, self.min_iteration == -1)",
+        "implies(min_iteration is not None, "
+        "self.min_iteration == min_iteration)",
+        "implies(max_iteration is None, self.max_iteration == INF)",
+        "implies(max_iteration is not None, "
+        "self.max_iteration == max_iteration)",
+    ],
+)
+
+# documented names (independent of the class's alias table)
+ALIASES = {
+    "ratio": "ratio", "ratio_all": "ratio", "ratio_ns": "ratio_ns",
+    "Z_err": "Z_err", "evidence_error": "Z_err",
+    "log_dZ": "log_dZ", "log_evidence": "log_dZ",
+    "ess": "ess", "fractional_error": "fractional_error",
+}
+KNOWN = " or ".join(f"stopping_criterion == '{a}'" for a in ALIASES)
+
+contract(
+    INS, "ImportanceNestedSampler.configure_stopping_criterion",
+    props=["C15", "C20"],
+    params={"stopping_criterion": "Str", "tolerance": "Real",
+            "check_criteria": "Str"},
+    modifies=["self.tolerance", "self.criterion", "self._stop_any"],
+    raises={"ValueError": f"not ({KNOWN}) or "
+            "(check_criteria != 'any' and check_criteria != 'all')"},
+    ensures=[
+        f"implies(stopping_criterion == '{a}', "
+        f"self.stopping_criterion == ['{c}'])" for a, c in ALIASES.items()
+    ] + [
+        "len(self.tolerance) == 1 and self.tolerance[0] == tolerance",
+        "len(self.criterion) == 1 and self.criterion[0] == INF",
+        "self._stop_any == (check_criteria == 'any')",
+    ],
+)
+
+contract(
+    INS, "ImportanceNestedSampler.configure_stopping_criterion",
+    variant_name="two-criteria", props=["C15", "C20"],
+    params={"stopping_criterion": ("const", ["evidence_error", "ess"]),
+            "tolerance": ("const", [0.1, 1000.0]),
+            "check_criteria": "Str"},
+    modifies=["self.tolerance", "self.criterion", "self._stop_any"],
+    raises={"ValueError":
+            "check_criteria != 'any' and check_criteria != 'all'"},
+    ensures=[
+        "self.stopping_criterion == ['Z_err', 'ess']",
+        "self.tolerance == [0.1, 1000.0]",
+        "len(self.criterion) == 2",
+        "self._stop_any == (check_criteria == 'any')",
+    ],
+)
+
+contract(
+    INS, "ImportanceNestedSampler.configure_stopping_criterion",
+    variant_name="length-mismatch", props=["C15", "C20"],
+    params={"stopping_criterion": ("const", ["ratio", "ess"]),
+            "tolerance": ("const", [0.1]),
+            "check_criteria": ("const", "any")},
+    modifies=["self.tolerance", "self.criterion", "self._stop_any"],
+    raises={"ValueError": "True"},
+    ensures=["False"],
 )
